@@ -949,7 +949,7 @@ func c07Run(c *fw.Case) {
 			// how the outer row's column is named: through the outer table's
 			// alias (which also leads to the nested table), or with the outer
 			// table's own name
-			switch c.Intn(4) {
+			switch c.Intn(3) {
 			case 0:
 				selFrom, fromArr = "SELECT x.rid FROM t1 x WHERE ", "x.arr"
 				ro.ColText["n1"] = "x.n1"
